@@ -2,6 +2,7 @@
 # Confirms a seeded change: demo passes on the unchanged tree; with the patch the tree builds, the
 # existing suite passes, and the demo fails. usage: confirm_seed.sh <seed-dir> [pkg-dir-for-the-demo, default .]
 d=$(readlink -f "$1"); dest=${2:-.}; pat="Seed|Demo|TestC[0-9][0-9]|Forged|NoName|FallbackHost"; [ "$dest" != "." ] && pat="."; [ -n "$3" ] && pat="$3"
+RACEFLAG=${CONFIRM_RACE:+-race}
 wt=/tmp/cs-$$-$RANDOM
 export GOFLAGS=-mod=mod GOPROXY=off GOSUMDB=off GOTOOLCHAIN=local
 git -C /repo worktree add -q "$wt" HEAD || exit 2
@@ -9,10 +10,10 @@ trap 'git -C /repo worktree remove --force "$wt" >/dev/null 2>&1' EXIT
 cd "$wt"
 mkdir -p "$dest"
 for f in "$d"/*_test.go "$d"/*_test.go.txt; do [ -f "$f" ] && cp "$f" "$dest/zz_seed_$(basename "${f%.txt}")"; done
-go test -vet=off -count=1 -timeout 200s -run "$pat" "./$dest/" > /tmp/cs-out-$$ 2>&1; base=$?
+go test $RACEFLAG -vet=off -count=1 -timeout 200s -run "$pat" "./$dest/" > /tmp/cs-out-$$ 2>&1; base=$?
 git apply "$d/patch.diff" || { echo "$d: PATCH DOES NOT APPLY"; exit 1; }
 go build ./... || { echo "$d: DOES NOT BUILD"; exit 1; }
-go test -vet=off -count=1 -timeout 200s -run "$pat" "./$dest/" > /tmp/cs-out2-$$ 2>&1; withp=$?
+go test $RACEFLAG -vet=off -count=1 -timeout 200s -run "$pat" "./$dest/" > /tmp/cs-out2-$$ 2>&1; withp=$?
 rm -f "$dest"/zz_seed_*; rmdir "$dest" 2>/dev/null
 go test -vet=off -count=1 -timeout 600s ./... > /tmp/cs-suite-$$ 2>&1; suite=$?
 if [ $suite -ne 0 ]; then failed=$(grep -E "^(FAIL|---)" /tmp/cs-suite-$$ | head -5 | tr '\n' ' '); fi
